@@ -339,7 +339,7 @@ pub fn miri_slice(r: &mut Report, seed: u64, n: usize, shard: usize) -> usize {
 
 pub fn run(ctx: &Ctx) -> i32 {
     let mut report = ctx.report("C17", "exploration");
-    report.rule = "integers: u8/u16 exhaustively, u32/u64/usize at every power-of-ten and power-of-two boundary (+-1) plus random values, each under Default(LE)/BigEndian/Bcd, encode compared with an independent formula and decode(encode(v)) with (v, nothing left); all 65536 tags under BigEndian and every representable tag under Default, every representable tag (one- and two-byte) followed by every possible next byte; BCD *inputs*: every digit string of 0..3 bytes with and without a trailing F pad exhaustively, sampled to 11 bytes, for all five integer widths (value, or error when the digits exceed the type); CP437: every byte string of length 1..2 and all 256 bytes in each position of length-3 strings (canonical = no trailing NUL), random strings to 999 bytes; hex strings to 64 bytes; receipt numbers 0..9999 and FFFF; and the codecs interleaved (one value through every integer width, the tag, text and hex codecs back to back in rotating order). Non-trivial = inside the claimed domain; distinct = distinct (encoding, type, value/input).".into();
+    report.rule = "integers: u8/u16 exhaustively, u32/u64/usize at every power-of-ten and power-of-two boundary (+-1) plus random values, each under Default(LE)/BigEndian/Bcd, encode compared with an independent formula and decode(encode(v)) with (v, nothing left); all 65536 tags under BigEndian and every representable tag under Default, every representable tag (one- and two-byte) followed by every possible next byte; BCD *inputs*: every digit string of 0..3 bytes with and without a trailing F pad exhaustively, sampled to 11 bytes, for all five integer widths (value, or error when the digits exceed the type); CP437: every byte string of length 1..2 and all 256 bytes in each position of length-3 strings (canonical = no trailing NUL), random strings to 999 bytes, texts whose bytes are meaningful in another representation (UTF-8 sequences, byte-order marks, line ends, escapes) at the start / end / inside; hex strings to 64 bytes; receipt numbers 0..9999 and FFFF; and the codecs interleaved (one value through every integer width, the tag, text and hex codecs back to back in rotating order). Non-trivial = inside the claimed domain; distinct = distinct (encoding, type, value/input).".into();
     report.exhaustive = Some(false);
     report.assumptions = vec![
         "independent encodings in refcodec::codec (bcd_bytes, tag_bytes, CP437 table generated from Python's cp437 codec)".into(),
@@ -459,6 +459,26 @@ pub fn run(ctx: &Ctx) -> i32 {
                     let mut s = [x, y, rng.byte()];
                     s[pos] = v;
                     check_text(r, &s, true);
+                }
+            }
+        }
+        // texts whose bytes mean something in another representation (UTF-8 sequences incl. a byte-order mark, UTF-16
+        // marks, line ends, escapes): at the start, at the end, inside; alone, with ASCII and with arbitrary remainder
+        if shard == 0 {
+            const FOREIGN: &[&[u8]] = &[&[0xe2, 0x82, 0xac], &[0xef, 0xbb, 0xbf], &[0xc3, 0xa4], &[0xc3, 0x9f], &[0xe2, 0x80, 0x93], &[0xc2, 0xa0], &[0xf0, 0x9f, 0x99, 0x82], &[0xff, 0xfe], &[0xfe, 0xff], &[0x0d, 0x0a], &[0x0a, 0x0d], &[0x1b, 0x5b, 0x30, 0x6d], &[0x25, 0x73], &[0x5c, 0x6e], &[0x5c, 0x30]];
+            for f in FOREIGN {
+                for rest in [&b""[..], &b" 12,50 EUR"[..], &b"A"[..], &[0xe4, 0x41][..], &[0xc3, 0xa4, 0x20][..]] {
+                    let mut a = f.to_vec();
+                    a.extend_from_slice(rest);
+                    check_text(r, &a, false);
+                    let mut b = rest.to_vec();
+                    b.extend_from_slice(f);
+                    check_text(r, &b, false);
+                    let mut c = b"Summe ".to_vec();
+                    c.extend_from_slice(f);
+                    c.extend_from_slice(rest);
+                    check_text(r, &c, false);
+                    r.count("texts_meaningful_in_another_representation", 3);
                 }
             }
         }
